@@ -100,8 +100,10 @@ Eval vm_compute in (length checks, bad).
 """
 
 
-def run_case_files(terms, imports, rundir, extra_q=(), chunk=250, jobs=16, tag="cases"):
+def run_case_files(terms, imports, rundir, extra_q=(), chunk=None, jobs=16, tag="cases"):
     """terms: list of (index, coq_bool_term). Returns (n_checked, bad_indices, errors)."""
+    if chunk is None:
+        chunk = min(250, max(20, -(-len(terms) // jobs)))
     files = []
     for k in range(0, len(terms), chunk):
         part = terms[k : k + chunk]
